@@ -417,3 +417,41 @@ def check_numbering(ctx, F, rule="E-DDDMP.numbering"):
     ctx.ob(rule, rule, not fails, "export_common (%s): %s" % (F.where(fid), " || ".join(fails) if fails else
                                                              "levels numbered bottom-up from 1, support-variable index pre-decremented"))
     return 1
+
+
+def check_level_order_checks(ctx, F, rule="E-DDDMP.order"):
+    """A node read from a file is only created after its level was compared with the level of every child: the importer
+    rejects `level >= child_level` (children must lie strictly below).  Inventory from MIR: in `import_ascii` (1) and
+    `import_bin` (2) the comparison between the looked-up level and `child.level()` is `>=`; a weaker `>` accepts a
+    node whose child sits on its own level (an ill-formed diagram from a malformed file)."""
+    from lib import cfg
+    from efreelist import origins
+    want = {"import_ascii": 1, "import_bin": 2}
+    n = 0
+    for fn_, cnt in sorted(want.items()):
+        fid = "oxidd_dump::dddmp::import::" + fn_
+        m = F.mir.get(fid)
+        if not ctx.anchor(rule, fid, m is not None):
+            continue
+        B = cfg.Body(m)
+        found = []
+        for i in sorted(B.reach):
+            b = m["blocks"][i]
+            if b["c"]:
+                continue
+            for s in b["s"]:
+                rv = s.get("rv") or {}
+                if rv.get("k") == "bin" and rv.get("o") in ("Eq", "Ne", "Lt", "Le", "Gt", "Ge"):
+                    ob = [(cfg.callee_name(o[1]) or "").rsplit("::", 1)[-1] for o in origins(B, m, [rv.get("b")]) if o[0] == "call"]
+                    oa = [(cfg.callee_name(o[1]) or "").rsplit("::", 1)[-1] for o in origins(B, m, [rv.get("a")]) if o[0] == "call"]
+                    if "level" in ob:
+                        found.append(rv["o"])
+                    elif "level" in oa:
+                        found.append({"Lt": "Gt", "Gt": "Lt", "Le": "Ge", "Ge": "Le"}.get(rv["o"], rv["o"]))
+        n += 1
+        ok = len(found) == cnt and all(o == "Ge" for o in found)
+        ctx.ob(rule, "%s:%s" % (rule, fn_), ok,
+               "%s (%s): %s" % (fn_, F.where(fid), "rejects level >= child level (%d comparison(s))" % cnt if ok else
+                                "the node's level is compared with its children's levels by %r, expected %d x `>=` (reject a child on "
+                                "the node's own level or above)" % (found, cnt)))
+    return n
